@@ -1096,6 +1096,9 @@ def g_centroids(sc, T, R, grng):
             for f, nm, tol in ((centroid_1dg, 'centroid_1dg', 1e-4), (centroid_2dg, 'centroid_2dg', 2e-3)):
                 g0 = f(st, **mk0)
                 g1 = f(ST, **mk1)
+                if not (0 <= g0[0] <= st.shape[1] - 1 and 0 <= g0[1] <= st.shape[0] - 1):
+                    R.skip(nm, 'gaussian-fit-left-the-stamp')      # chaotic (library numerics): not compared
+                    continue
                 rel(nm, 'centroid', g1, g0, tol, lambda: dict(det, original=js(g0), transformed=js(g1)))
             q0 = centroid_quadratic(st, **mk0)
             q1 = centroid_quadratic(ST, **mk1)
@@ -1132,9 +1135,14 @@ def g_centroids(sc, T, R, grng):
                  bool(np.allclose(x1c - T.dx, x0c, rtol=0, atol=tol, equal_nan=True))
                  and bool(np.allclose(y1c - T.dy, y0c, rtol=0, atol=tol, equal_nan=True)), det)
         else:
+            okf = np.ones(len(x0c), bool)
+            if f in (centroid_1dg, centroid_2dg):
+                # a fit that ran away from its box is chaotic (library numerics): not compared
+                okf = (np.abs(x0c - xs[ins]) <= bx / 2) & (np.abs(y0c - ys[ins]) <= by / 2)
+                R.skip('centroid_sources', 'gaussian-fit-left-its-box', int((~okf).sum()))
             R.ok('centroid_sources', f'centroids x/y swapped ({nm})',
-                 bool(np.allclose(x1c, y0c, rtol=0, atol=tol, equal_nan=True))
-                 and bool(np.allclose(y1c, x0c, rtol=0, atol=tol, equal_nan=True)), det)
+                 bool(np.allclose(x1c[okf], y0c[okf], rtol=0, atol=tol, equal_nan=True))
+                 and bool(np.allclose(y1c[okf], x0c[okf], rtol=0, atol=tol, equal_nan=True)), det)
 
 
 # ======================================================================================
